@@ -100,19 +100,66 @@ SAME_ROLE = {
 }
 
 
+# online components that every learning step of the routine trains (restated from the docstrings)
+EVERY_STEP = {"dqn": ["q"], "nature_dqn": ["q"], "ddqn": ["q"], "ddqn_per": ["q"], "ddpg": ["q", "policy"], "td3": ["q"], "td3_lap": ["q"], "sac": ["q"],
+              "td7": ["critic", "embedding"], "mrq": ["q"], "pets": ["model"]}
+
+
+def _parts(name, mods):
+    """Named sub-components observed separately."""
+    out = {k: v for k, v in mods.items() if isinstance(v, (nnx.Module, nnx.Optimizer))}
+    if name == "mrq" and "policy_with_encoder" in mods:
+        out["policy_with_encoder.encoder"] = mods["policy_with_encoder"].encoder
+        if "policy_with_encoder_target" in mods:
+            out["policy_with_encoder_target.encoder"] = mods["policy_with_encoder_target"].encoder
+    return out
+
+
 def alias_item(item, col):
     name = item["routine"]
     entry = "train_" + name
+    earlier = []  # (script, parts, snapshot) of the runs already finished in this item
     for script in item["scripts"]:
+        script = script + "cc" if name == "mrq" else script
         cfg = dict(buffer_size=16, env_horizon=len(script) + 3, learning_starts=5 if name == "mrq" else 2, batch_size=2, seed=1 + item["seed"], net_seed=item["seed"],
-                   delay=5, extra={})
+                   delay=2 if name == "mrq" else 5, extra={}, snap=False)
         if name == "td7":
             cfg["use_checkpoints"] = False
-        run = D.run(name, script, **cfg) if item["handed"] else _run_created(name, script, cfg)
+        if not item["handed"]:
+            cfg["targets_none"] = True
+        # build first so that the initial parameters can be snapshotted, then run on the prebuilt objects
+        env0 = D.make_env(name, script, cfg)
+        call, mods = D.build(name, env0, cfg)
+        parts = _parts(name, mods)
+        before = S.snap_all(parts)
+        run = D.run(name, script, prebuilt=(call, mods, cfg["_envbox"]), **{k: v for k, v in cfg.items() if k != "_envbox"})
+        if not item["handed"]:
+            run.mods = {k: v for k, v in run.mods.items() if "target" not in k}
         col.tick(1, (entry, item["handed"], script))
         if run.error:
             col.outcome("runs_aborted_by_env_guard:" + run.error)
             continue
+        after = S.snap_all(parts)
+        det0 = dict(routine=name, script=script, targets_handed_in=item["handed"])
+        # (a) the components every learning step trains did change in this learning-enabled run
+        for k in EVERY_STEP.get(name, []):
+            if k in parts:
+                col.outcome("loop_must_change_obligations")
+                if before[k] == after[k]:
+                    col.violation(SIG.format(entry, "trained-unchanged:" + k), dict(det0, component=k))
+        if name == "mrq":
+            # learning starts at step 5, target_delay 2: the run contains an encoder round (epoch 2)
+            col.outcome("loop_must_change_obligations")
+            if before["policy_with_encoder.encoder"] == after["policy_with_encoder.encoder"]:
+                col.violation(SIG.format(entry, "trained-unchanged:encoder"), dict(det0, component="policy_with_encoder.encoder"))
+        # (b) a later training run leaves the objects of an earlier, finished run alone
+        for sc0, parts0, snap0 in earlier:
+            now = S.snap_all(parts0)
+            ch = S.changed(snap0, now)
+            col.tick(1)
+            if ch:
+                col.violation(SIG.format(entry, "changed-components-of-an-earlier-run"), dict(det0, earlier_script=sc0, changed=ch))
+        earlier.append((script, parts, after))
         res = _modules_of(run.result)
         roles = dict(res)
         for k, v in run.mods.items():
